@@ -9,6 +9,7 @@ import subprocess
 import sys
 import tempfile
 import z3
+from .replay import definite
 from .vals import *
 from .ops import truth
 from .state import State, Unsupported, PathEnd
@@ -95,6 +96,9 @@ def native_c_batch(program, calls, timeout=300):
             cur = None
     if cur is not None:
         msg = [l for l in stderr.splitlines() if 'ERROR' in l or 'runtime error' in l or 'SUMMARY' in l][:4]
+        if not msg and 'Traceback (most recent call last)' in stderr:
+            # the harness itself failed (bad request): a checker error, never a verdict about the C code
+            raise RuntimeError('C runner harness error in call %d: %s' % (cur, stderr[-400:]))
         outs[cur] = dict(ok=False, exc='sanitizer: ' + (' | '.join(msg) or stderr[-300:] or 'rc=%s' % rc))
     elif rc != 0 and not any(outs):
         raise RuntimeError('C runner failed: %s' % stderr[-500:])
@@ -135,6 +139,8 @@ def native_c_calls(program, cname, arglist, timeout=120):
         if cur is not None:
             # the process died inside call `cur`
             msg = [l for l in stderr.splitlines() if 'ERROR' in l or 'runtime error' in l or 'SUMMARY' in l][:4]
+            if not msg and 'Traceback (most recent call last)' in stderr:
+                raise RuntimeError('C runner harness error in call %d: %s' % (start + cur, stderr[-400:]))
             outs[start + cur] = dict(ok=False, exc='sanitizer: ' + (' | '.join(msg) or stderr[-300:] or 'rc=%s' % rc))
             start = start + cur + 1
         elif rc != 0 and done < len(calls):
@@ -207,11 +213,19 @@ class CChecker:
             return False
         if isinstance(v, bool):
             return v
-        return z3.is_true(z3.simplify(v))
+        v = z3.simplify(v)
+        if z3.is_true(v):
+            return True
+        if z3.is_false(v):
+            return False
+        if getattr(self, 'strict3', False):
+            raise Unsupported('residual term (a spec function without a concrete evaluator)')
+        return False
 
     def check_requires(self, jargs):
         ex = self._exec()
         st = self.state(jargs)
+        self.strict3 = False
         try:
             for g, text in self.c.bind.items():
                 ex.frame.ghost[g] = ex.eval_spec(text, st)
@@ -222,6 +236,7 @@ class CChecker:
     def check_ensures(self, jargs, outcome):
         if not outcome.get('ok'):
             return ['undefined behaviour / crash: %s' % outcome.get('exc')]
+        self.strict3 = True
         ex = self._exec()
         st = self.state(jargs)
         for g, text in self.c.bind.items():
@@ -293,7 +308,7 @@ def witness_search(run, cname, cfg, candidate_text, limit):
             if o is None:
                 continue
             seen += 1
-            bad = chk.check_ensures(jargs, o)
+            bad = definite(chk.check_ensures(jargs, o))
             if bad:
                 return jargs, o, bad, seen
     return None, None, None, seen
@@ -302,7 +317,7 @@ def witness_search(run, cname, cfg, candidate_text, limit):
 def replay_file(run, rec):
     cname = rec['function']
     o = native_c_calls(run.program, cname, [rec['failing_input']])[0]
-    bad = CChecker(run.program, cname).check_ensures(rec['failing_input'], o)
+    bad = definite(CChecker(run.program, cname).check_ensures(rec['failing_input'], o))
     print('function %s\ninput %s\nnative outcome %s\nviolated: %s' % (cname, json.dumps(rec['failing_input']), json.dumps(o), bad))
     return 1 if bad else 0
 
@@ -310,4 +325,4 @@ def replay_file(run, rec):
 def replay_witness(run, k):
     w = k['witness']
     o = native_c_calls(run.program, w['function'], [w['args']])[0]
-    return bool(CChecker(run.program, w.get('contract', w['function'])).check_ensures(w['args'], o))
+    return bool(definite(CChecker(run.program, w.get('contract', w['function'])).check_ensures(w['args'], o)))
